@@ -782,6 +782,7 @@ func receive(res *Result, prop string, i int, b []byte, st *decState, bud *decBu
 		var panicked any
 		var ms0, ms1 runtime.MemStats
 		var t0 time.Time
+		var c0 time.Duration
 		var s0 uint64
 		if c06 {
 			runtime.ReadMemStats(&ms0)
@@ -790,6 +791,7 @@ func receive(res *Result, prop string, i int, b []byte, st *decState, bud *decBu
 				simrt.StepLimit = s0 + 5_000_000 + 500*uint64(len(b))
 			}
 			t0 = time.Now()
+			c0 = cpuTime()
 		}
 		func() {
 			defer func() {
@@ -824,8 +826,17 @@ func receive(res *Result, prop string, i int, b []byte, st *decState, bud *decBu
 				res.violate("C06", "step-budget-exhausted", en.name, i, "%s executed more than 5e6 + 500 x %d library statements without returning (stand-in for the 5 s deadline); input starts %x", en.name, len(b), head(b, 48))
 				panicked = nil
 			}
-			if wall > 5*time.Second {
-				res.violate("C06", "wall-deadline-exceeded", en.name, i, "%s took %v on a %d-byte input", en.name, wall, len(b))
+			// the 5 s deadline, judged so that a loaded machine cannot produce a verdict: by the CPU
+			// time the process consumed during the call; or, for a call that waits rather than
+			// computes, by wall time scaled with the slow-down measured right now
+			if cpu := cpuTime() - c0; cpu > 5*time.Second {
+				res.violate("C06", "wall-deadline-exceeded", en.name, i, "%s consumed %v of CPU time (wall %v) on a %d-byte input", en.name, cpu, wall, len(b))
+			} else if wall > 5*time.Second {
+				if f := slowdownNow(); wall > time.Duration(float64(10*time.Second)*f) {
+					res.violate("C06", "wall-deadline-exceeded", en.name, i, "%s took %v (CPU %v; the machine's current slow-down factor is %.1f) on a %d-byte input", en.name, wall, cpu, f, len(b))
+				} else {
+					res.Probes["slow_call_attributed_to_machine_load"]++
+				}
 			}
 			if alloc > limit/4 {
 				res.Probes["alloc_over_quarter_budget"]++
@@ -1342,11 +1353,19 @@ wait:
 			break wait
 		case <-tick.C:
 			_, _, last := se.snapshot()
-			if time.Since(last) > 60*time.Second || time.Since(started) > 900*time.Second {
+			if time.Since(last) > 60*time.Second {
 				timedOut = true
 				_ = cmd.Process.Kill()
 				<-done
 				break wait
+			}
+			if time.Since(started) > 2*time.Hour {
+				// progressing, but for ever: not a verdict about the library, trouble of the harness
+				_ = cmd.Process.Kill()
+				<-done
+				r := newResult()
+				r.Fatal = "W-DEC child still running (and journalling progress) after two hours"
+				return r
 			}
 		}
 	}
@@ -1371,7 +1390,7 @@ wait:
 	case deadlock:
 		why = "blocked for ever inside a decode call (runtime: all goroutines are asleep - deadlock)"
 	case timedOut:
-		why = "made no progress for 60 s (or did not finish within 900 s)"
+		why = "made no progress for 60 s"
 	case oom:
 		why = "was killed by the runtime: out of memory under a 4 GiB address-space cap"
 	case strings.Contains(stderr, "stack overflow") || strings.Contains(stderr, "stack exceeds"):
@@ -1404,4 +1423,31 @@ wait:
 
 func init() {
 	isolatedRunner["W-DEC"] = runDecIsolated
+}
+
+// cpuTime: user + system CPU time consumed by this process so far.
+func cpuTime() time.Duration {
+	var ru syscall.Rusage
+	if err := syscall.Getrusage(syscall.RUSAGE_SELF, &ru); err != nil {
+		return 0
+	}
+	return time.Duration(ru.Utime.Nano() + ru.Stime.Nano())
+}
+
+// slowdownNow measures how much slower than its CPU time this process currently
+// runs: it spins until it has consumed 100 ms of CPU and returns wall / CPU (>= 1).
+func slowdownNow() float64 {
+	c0, t0 := cpuTime(), time.Now()
+	x := uint64(1)
+	for cpuTime()-c0 < 100*time.Millisecond {
+		for i := 0; i < 200000; i++ {
+			x = x*6364136223846793005 + 1442695040888963407
+		}
+	}
+	_ = x
+	f := float64(time.Since(t0)) / float64(cpuTime()-c0)
+	if f < 1 {
+		f = 1
+	}
+	return f
 }
